@@ -154,7 +154,10 @@ func (d *duplexHTTPCall) Read(data []byte) (int, error) {
 		return 0, fmt.Errorf("nil response from %v", d.request.URL)
 	}
 	n, err := d.response.Body.Read(data)
-	return n, wrapIfRSTError(err)
+	// If the context is cancelled or expires while the read is in flight,
+	// net/http returns the bare context error: classify it like the check
+	// above does, instead of letting callers wrap it under another code.
+	return n, wrapIfRSTError(wrapIfContextError(err))
 }
 
 func (d *duplexHTTPCall) CloseRead() error {
